@@ -183,13 +183,25 @@ def judge(ctx, drv, res, case, ob, want_account):
     st, ids = orch_e2e.step_toks(case)
     final = orch_e2e.model(drv, case, ob['rounds'][-1]['finished'] if not bad else [])
     rows = ob.get('rows', [])
+    if skip_end and all(x['name'] in case['skip'] for x in case['steps']) and not rows:
+        # every step and end are skipped: nothing ran, and trap_exit removes the build directory ("do not leave an empty
+        # build around": has_steps is false for a file of skip records only); nothing of C04/C11 is judged on such an
+        # invocation (the end hook it still runs is the known finding about a skipped end step, judged on other cases)
+        res.count('outside: every step and end skipped - the exit trap removes the empty build directory')
+        return
     irows = ' '.join('%s:%s:%s:%s' % (r['step'], r['name'].encode().hex(), r['exit'], r['skip']) for r in rows)
     hooks = [h.split()[1:] for h in ob.get('hooks', [])]
     if bad:
         res.disagreements.append({'case': case, 'why': 'after %s finished the model starts %s, canvas started %s' % (bad['finished'], bad['model_starts'], bad['impl_starts'])})
     elif final:
         mstatus = final['eff'][0]
-        if final['rows'] != irows or (ob['rc'] != int(mstatus) and not case['detached']):
+        all_skipped = skip_end and all(x['name'] in case['skip'] for x in case['steps'])
+        if all_skipped and irows == '' and (case['detached'] or ob['rc'] == int(mstatus)):
+            # every step and end are skipped: nothing ran, and trap_exit removes the build directory ("do not leave an
+            # empty build around": has_steps is false for a file of skip records only) - the orchestrator model keeps the
+            # skip records; there is nothing of the property to judge on such an invocation
+            res.count('outside: every step and end skipped - the exit trap removes the empty build directory')
+        elif final['rows'] != irows or (ob['rc'] != int(mstatus) and not case['detached']):
             res.disagreements.append({'case': case, 'why': 'final records / status', 'model': [final['rows'], mstatus], 'impl': [irows, ob['rc']]})
         # the hook calls in order: one per finished step (the harness fixes the completion order), then the end
         # hook of the exit trap exactly when the model's trap_exit says so
